@@ -888,8 +888,14 @@ def rule_r5(ctx) -> List[R.Inst]:
     init = M.fn(SNAPPER + ".__init__")
     srt = [n for n in walk_no_nested(init.node) if isinstance(n, ast.Call) and call_name(n) == "argsort"]
     bis = [n for n in walk_no_nested(fn.node) if isinstance(n, ast.Call) and call_name(n) in ("bisect_left", "bisect")]
+    srt = srt or [n for n in walk_no_nested(init.node) if isinstance(n, ast.Call) and call_name(n) in ("sort", "sorted", "unique", "lexsort")]
+    triangle = any(isinstance(n, ast.Call) and call_name(n) == "indices" for n in walk_no_nested(init.node))
     if srt and bis and unparse(bis[0].args[0]) == "self.val":
         insts.append(R.ok(rid, "Snapper:sorted-table", file, bis[0].lineno, idiom="bisect over the table sorted at construction"))
+    elif bis and not srt and not triangle:
+        # the table is generated in another way (e.g. term by term): whether it comes out sorted is not read off a sort call
+        insts.append(R.undec(rid, "Snapper:sorted-table", file, init.node.lineno,
+                             "the fraction table is not built from the index triangle and no sort is applied: its order is not decided here"))
     else:
         insts.append(R.viol(rid, "Snapper:sorted-table", file, fn.node.lineno,
                             "bisect requires the fraction table sorted by value", construct="Snapper table / bisect"))
